@@ -351,6 +351,11 @@ func runMismatch(c *Case, r *mon.Rec, fr specref.Framing, rng *rand.Rand) {
 				expectReject(c, r, fr, append(p.Encode(fr), libx.RandBytes(rng, d)...), "surplus-after-frame", d)
 			}
 		}
+		// (d) a whole multiple of 256 too many bytes (a length comparison done in 8 bits would not notice), header covering them
+		for _, d := range []int{256, 512} {
+			m := append(append([]byte{}, pdu...), libx.RandBytes(rng, d)...)
+			expectReject(c, r, fr, reframe(fr, p, m), "payload-length", d)
+		}
 		for d := -3; d <= 3; d++ {
 			if d == 0 {
 				continue
